@@ -155,9 +155,9 @@ def construct(name, setname, a, phase, data="auto"):
             n = 0 if kw.get("ndob") else bs
         passed = pattern(n, salt=len(kw))
         kw["data"] = passed
-    elif phase == "ata" and data != "auto":
-        passed = data
-        kw["data"] = data
+    elif phase == "ata" and "#datalen" in a:
+        passed = pattern(a["#datalen"], salt=5)
+        kw["data"] = passed
     try:
         cmd = K(op, **kw)
     except Exception as ex:                 # refusal or defect: judged by the spec
@@ -167,7 +167,7 @@ def construct(name, setname, a, phase, data="auto"):
 
 def event(name, setname, a, phase, cmd, exc, passed):
     e = {"ev": "Construct", "cls": name, "set": setname,
-         "a": {k: num(v) for k, v in a.items() if not k.startswith("#")},
+         "a": {k: num(v) for k, v in a.items() if not k.startswith("#") or k == "#datalen"},
          "exc": exc, "cdb": [], "dinlen": 0, "doutlen": 0, "bufs_ok": True, "dout_same": True}
     if cmd is not None:
         di, do = cmd.datain, cmd.dataout
